@@ -412,6 +412,9 @@ class Lane(LaneBase):
         'CG.C08.fromAdj_validated_iff', 'CG.C08.fromNetworkx_validated_acyclic', 'CG.C08.fromSkeleton_validated_acyclic',
         'CG.C08.fromAdj_of_law', 'CG.C08.fromAdj_toNumpy', 'CG.C08.fromAdj_toNumpy_cyclic_refused',
         'CG.C08.fromNetworkx_toNetworkx', 'CG.C08.fromGml_toGml', 'CG.C08.fromSkeleton_skeleton',
+        'CG.C08.Ts.fromAdj_of_law_ts', 'CG.C08.Ts.fromAdj_toNumpy_ts', 'CG.C08.Ts.fromNetworkx_toNetworkx_ts',
+        'CG.C08.Ts.fromSkeleton_skeleton_ts', 'CG.C08.lagged_refuses_iff', 'CG.C08.lagged_entry_law',
+        'CG.C08.toNumpyByLag_eq',
     ]
     AUDIT = 'CG/Audit/C08.lean'
     EXHAUSTIVE = {'quick': True, 'thorough': True}
@@ -429,7 +432,15 @@ class Lane(LaneBase):
                'str(int) for integer node names; edge weights other than 1 in a networkx graph are outside the model',
                'get_minimal_graph() itself is modelled elsewhere (CG/Model/TS.lean): here the lagged matrices are compared '
                'on the implementation\'s own minimal graph and from_adjacency_matrices is compared with construct_minimal=False']
-    PARTIAL = []
+    PARTIAL = ['CG.C08.fromAdjMatrices_toNumpyByLag_statement (from_adjacency_matrices(*to_numpy_by_lag()) re-creates the '
+               'edges of the minimal graph) is STATED, not proved: the block-matrix construction over lagged names is not yet '
+               'connected to the lagged entry law, and the minimal graph itself is modelled elsewhere; the lane compares '
+               'model and implementation on it and the oracle checks the round trip on the implementation',
+               'GML: the text layer (generate_gml / parse_gml) is not modelled; fromGml_toGml is the networkx round trip on '
+               'the abstract value',
+               'round-trip theorems (fromAdj_toNumpy, fromNetworkx_toNetworkx, …) conclude MatrixImage: same names, same '
+               'directed edges, same unordered undirected pairs, nothing else; variable types, metadata and the stored '
+               'orientation of undirected edges are not carried by a matrix (stated in the structure)']
 
     def cases(self, tier, rng):
         yield from mat_cases(tier, rng)
